@@ -6,10 +6,15 @@ C11 — ACCEPTANCE does not depend on how a record is presented.
 `C11Arrays.C11_presentations` needs both presentations to be accepted.  With the completeness theorems of
 Props/C01CompleteObs.lean (`toMarrow_complete'`: completeness on the weak state invariant, NO `Safe` hypothesis) acceptance itself is characterised by the logical batch:
 
-  toMarrow_ok_iff              under the capacity bound, `to_marrow` accepts a batch IFF every record has a documented
-                               value (`Spec.interpRow` is defined) — a condition on the logical rows only.
-  C11_presentations_success    two presentations of one logical batch are accepted or refused TOGETHER; when accepted
-                               the arrays decode identically.  (Physical equality: Props/C11Physical.lean.)
+  toMarrow_ok_iff               under the capacity bound, `to_marrow` accepts a batch IFF every record has a documented
+                                value (`Spec.interpRow` is defined) — a condition on the logical rows only.
+  C11_presentations_accept_iff  two presentations of one logical batch, EACH within the capacity bound, are accepted or
+                                refused TOGETHER.
+  C11_presentations_success     if one presentation is accepted, every other presentation that fits the capacity bound
+                                (`hcap2` only) is accepted too, and the arrays decode identically.  (Physical equality:
+                                Props/C11Physical.lean.)
+Hypotheses of all three: `SchemaOKF`, `coveredF`, `newRoot fields = ok root0`, `totalFs`, `typedFs`, `noRaw` records, the
+capacity bound(s); no `Safe`.
 
 The capacity bound is stated for EACH presentation (`Σ vsize ≤ room root0`): `vsize` counts serde calls and bytes, and a
 map presentation, a struct presentation with extra fields, a `Some(..)` layer … of one record have different sizes.
@@ -72,7 +77,7 @@ theorem C11_presentations_accept_iff (ext : Ext) (fields : List Field) (rows1 ro
 
 /-- **C11 (acceptance and arrays).**  If one presentation of a logical batch is accepted, so is every other presentation
 that fits (`hcap2`), and the arrays decode to the same columns.  No completeness hypothesis: it is
-`C01.toMarrow_complete'`.  (Replaces `C11_presentations_success_partial`.) -/
+`C01.toMarrow_complete'`. -/
 theorem C11_presentations_success (ext : Ext) (fields : List Field) (rows1 rows2 : List SVal) (root0 : B) (arrs1 : List Arr)
     (hschema : ∀ f ∈ fields, Lemmas.C03.SchemaOKF f)
     (hc : fields.all coveredF = true) (h0 : newRoot fields = .ok root0)
